@@ -189,7 +189,7 @@ func VerifH_C09_roundtrip() {
 	body := strings.ReplaceAll(verifImportPositions[p1], "%P", verifFakeAlias[a1])
 	if second > 0 {
 		a2 := vp.Choose("pkgB", 3)
-		body += "\n{\n" + strings.ReplaceAll(verifImportPositions[second-1], "%P", verifFakeAlias[a2]) + "\n}"
+		body += "\n{\n" + strings.ReplaceAll(strings.ReplaceAll(verifImportPositions[second-1], "%P", verifFakeAlias[a2]), "L9", "L8") + "\n}"
 	}
 	vp.Observe("body", body)
 	imports := ""
